@@ -96,6 +96,39 @@ Theorem same_capacities_in_system_space_partial :
 Proof. intros fail c fuel a m H. exact (meminit_system_ok_lemma fail c H fuel a m). Qed.
 Print Assumptions same_capacities_in_system_space_partial.
 
+(* P threads entering p?gstrf_WorkInit on the user stack, EVERY interleaving of their locked sections, start-up phase
+   (nobody has reached WorkFree), no alignment fix-up possible (buffer end 8-aligned, element size multiple of 8):
+   blocks of different threads never overlap, everything stays between the HEAD part and the end of the buffer
+   (see workinit_race_overlap_refuted / workfree_overlap_refuted for what happens without these hypotheses) *)
+Theorem workinit_any_interleaving_partial :
+  forall (c : cfg) (n w ba L T1 : Z),
+    (ba + L) mod 8 = 0 -> work_dsize c n w mod 8 = 0 -> 0 <= work_isize n w -> 0 <= work_dsize c n w -> 0 <= T1 <= L ->
+    forall (P : nat) (sched : list nat),
+      let '(ts, s) := run_init c n w ba sched (repeat TStart P) (mkStack L T1 T1 L) in
+      (forall i t b, nth_error ts i = Some t -> In b (thread_blocks c n w t) -> block_in T1 L b) /\
+      (forall i j ti tj bi bj, i <> j -> nth_error ts i = Some ti -> nth_error ts j = Some tj ->
+            In bi (thread_blocks c n w ti) -> In bj (thread_blocks c n w tj) -> disjoint bi bj) /\
+      (forall i iw dw, nth_error ts i = Some (TReady iw dw) -> disjoint (iw, work_isize n w) (dw, work_dsize c n w)) /\
+      s_used s = s_top1 s + (s_size s - s_top2 s) /\ s_top1 s = T1 /\ T1 <= s_top2 s <= L.
+Proof. exact workinit_threads_lemma. Qed.
+Print Assumptions workinit_any_interleaving_partial.
+
+(* the thread-level transition system (used by the three theorems about interleavings) and the sequential model of
+   p?gstrf_WorkInit that is compared with the C code on every run agree on a thread that is not interleaved *)
+Theorem thread_model_refines_workinit :
+  forall (fail : nat -> bool) (c : cfg) (n w : Z) (m : mem),
+    m_space m = USER ->
+    exists r iw dw m',
+      work_init fail c n w m = Ok (r, iw, dw) m' /\
+      m_stack m' = snd (run3 c n w (m_ba m) (m_stack m)) /\
+      match fst (run3 c n w (m_ba m) (m_stack m)) with
+      | TReady i d => r = 0 /\ iw = POff i /\ dw = POff d
+      | TFailed code => r = code /\ dw = PNull
+      | _ => False
+      end.
+Proof. exact thread_steps_refine_work_init. Qed.
+Print Assumptions thread_model_refines_workinit.
+
 (* p?gstrf_thread_finalize: the combined info is 0 only if every thread returned 0, otherwise it is one of
    the thread values and a lower bound of every non-zero one; if every failed thread reports > n so does it *)
 Theorem finalize_info_min :
